@@ -31,6 +31,7 @@ import tempfile
 import types
 import typing
 import zipfile
+import zipimport
 
 import forml
 from forml import setup
@@ -171,6 +172,9 @@ class Package(collections.namedtuple('Package', 'path, manifest')):
                         LOGGER.debug('Installing zip-safe package %s to %s', self.path, path)
                         path.parent.mkdir(parents=True, exist_ok=True)
                         path.write_bytes(self.path.read_bytes())
+                        # python keeps the directory of every archive ever imported from by its path - reread it in case
+                        # this path used to hold another archive (an earlier release) within this process
+                        zipimport.zipimporter(str(path)).invalidate_caches()
                     else:
                         LOGGER.debug('Extracting non zip-safe package %s to %s', self.path, path)
                         package.extractall(path)
